@@ -763,8 +763,10 @@ func (fsm *fsm) stateChange(nextState bgp.FSMState, reason *fsmStateReason) {
 			}
 		}
 
-		fsm.isEBGP = conf.IsEBGPPeer(fsm.gConf)
-		fsm.isConfed = fsm.gConf.IsConfederationMember(conf.Config.PeerAs)
+		// the peer type follows the AS the peer really announced (it differs from the
+		// configuration when AS checking is disabled with peer-as 0)
+		fsm.isEBGP = conf.State.PeerType == oc.PEER_TYPE_EXTERNAL
+		fsm.isConfed = fsm.gConf.IsConfederationMember(remoteAS)
 		fsm.isTreatAsWithdraw = conf.ErrorHandling.Config.TreatAsWithdraw
 		// reset the state set by the previous session
 		fsm.twoByteAsTrans = false
